@@ -44,8 +44,17 @@ func arr(n int, elem reflect.Type) reflect.Type { return reflect.ArrayOf(n, elem
 var u8 = reflect.TypeOf(uint8(0))
 var u64 = reflect.TypeOf(uint64(0))
 
+// pointerKeyBase: key k+pointerKeyBase is the POINTER type *T of the type T of key k.  *T and T
+// are distinct types and must get distinct IDs (C16).  The harness never stores through such a
+// component (its values stay nil), so it is treated like a zero-sized one.
+const pointerKeyBase = 100000
+
 // typeForKey builds the component type for a key; deterministic.
 func typeForKey(key int) compType {
+	if key >= pointerKeyBase {
+		el := typeForKey(key - pointerKeyBase)
+		return compType{key: key, tp: reflect.PointerTo(el.tp), size: 0, isRel: false, zs: true}
+	}
 	shape := key % numShapes
 	k := key / numShapes
 	size := payloadSizes[k%len(payloadSizes)]
